@@ -39,6 +39,27 @@ NEEDS = {
  'C18-1': ("C18","a 4-tuple of a 64-bit type whose fourth element exceeds u32::MAX",""),
  'C18-2': ("C18","a 4-tuple whose fourth element is exactly MAX_SAFE_INTEGER (parser side off-by-one)",""),
 }
+
+NEEDS.update({
+ 'C01-3': ("C01","a component zero-padded to 21 or more digits (`>=0000000000000000000001.0.0`)","NOT FLAGGED, deliberately: node-semver itself refuses components longer than 16 digits, and the property lets the crate choose which loose spellings it accepts (an unparseable token is dropped); a check demanding 21-digit zero padding would alarm on node-conformant code"),
+ 'C02-3': ("C02","an unrecognised token containing a single `|` followed by more comparators or alternatives (`1.0.0 || x|y || 2.0.0`)","caught by C01 from the start (garbage deviation) only after adding the tokens `x|y` and `|`; C02 itself after adding such sides"),
+ 'C03-3': ("C03","majors congruent modulo 2^28 (`>=1.0.0-alpha` with 268435457.0.0-beta): a packed triple comparison","MISSED at first (no large components next to the gate); caught after adding the bit-boundary family (base triple vs the same triple with 2^k-1, 2^k, 2^k+1 added to one component, every k)"),
+ 'C04-3': ("C04","two different numeric identifiers above 2^53 within one f64 ulp","MISSED at first; caught after adding identifiers 2^53, 2^53+1, u64::MAX-1 (and teaching the node cross-check that node compares numerics as doubles)"),
+ 'C05-3': ("C05","a component of 2^64 or more whose low 64 bits are at most MAX_SAFE_INTEGER",""),
+ 'C06-3': ("C06","an all-digit identifier with value u64::MAX+1 .. u64::MAX+4 (unchecked add in a hand-written digit fold)",""),
+ 'C07-3': ("C07","prerelease identifiers 9, 10 and 1a together (non-transitive hand-written Identifier order)","caught by C04 from the start; by C07/C09/C03 after adding the exotic leaf set with tags 9, 10, 1a"),
+ 'C08-3': ("C08","B with three alternatives: two exact holes then a cover of the lowest remainder, in that order","caught after adding three-alternative operands in every order (not evaluated before that)"),
+ 'C09-3': ("C09","a lower bound with patch above 2^32 (or minor above 2^33) against an upper bound on the next minor/major","MISSED at first; caught after adding the exotic and bit-boundary leaf sets"),
+ 'C10-3': ("C10","a component exactly 2^21 against its carry partner (1.0.2097152 vs 1.1.0): packed Version::cmp","MISSED at first (the bit family had 2^k+1 only); caught after extending it to 2^k-1, 2^k, 2^k+1 and adding the same family to C04"),
+ 'C11-3': ("C11","exclusive lower bound with patch exactly MAX_SAFE_INTEGER-1",""),
+ 'C12-3': ("C12","a zero-padded 20-digit numeric identifier with value >= 10^19",""),
+ 'C13-3': ("C13","a comparator with build metadata and no prerelease tag (`>=1.2.3+build`)",""),
+ 'C14-3': ("C14","a list of more than 32 elements whose extreme satisfying group consists of several prereleases of one triple","MISSED at first (lists had at most 4 elements); caught after adding long lists (5..1025 elements, rotations)"),
+ 'C15-3': ("C15","exclusive prerelease lower bound and exclusive release upper bound on the next patch (`>1.2.9-rc.1 <1.2.10`)","caught by C01 from the start; by C15/C07 in quick after adding a patch-adjacent bound to the exotic leaf set (thorough had it)"),
+ 'C16-3': ("C16","majors congruent modulo 2^28, or residues in reverse order with mixed prerelease flags (packed Version::cmp)",""),
+ 'C17-3': ("C17","an oversized component in an incomplete core (`900719925474100`, `1.900719925474100.`)","MISSED at first (the kind rule required an otherwise valid version); caught after adding the prefix form of the rule and the incomplete-core family"),
+ 'C18-3': ("C18","two different large components in one tuple (bitwise OR above MAX_SAFE_INTEGER, wrong mask)",""),
+})
 rows=[]
 for sid,(prop,needs,note) in sorted(NEEDS.items()):
     d=f'/verif/seeded/{sid}'
